@@ -174,7 +174,7 @@ func keytabFilterRule(w *World, c *Check, rule string) {
 			okPair = false
 			continue
 		}
-		kv := fa.R.R(RetResults(x.Ret)[1])
+		kv := fa.R.ExpandLoopSyms(fa.R.R(RetResults(x.Ret)[1]))
 		if !fullMatch(`.*`+ent+`\.KVNO.*`, kv) {
 			okPair = false
 		}
